@@ -24,7 +24,7 @@ def guarded(t, fn):
     return t
 
 
-def coal_item(tid, n, c):
+def coal_item(tid, n, c, light=False):
     t = {"tid": tid, "kind": "coal", "c": c, "exc": "", "players": [], "id_players": [], "size": -1, "id_size": -1, "compl": 0, "from_players": -1,
          "subs": [], "id_subs": [], "supers": [], "id_supers": []}
 
@@ -36,6 +36,8 @@ def coal_item(tid, n, c):
         t["id_size"] = int(CI.get_size(c, n))
         t["compl"] = int(co.inverted(n).id)
         t["from_players"] = int(Coalition.from_players(t["players"]).id)
+        if light:                      # large player counts: without the (exponentially long) sub-/super-coalition lists
+            return
         t["subs"] = [int(x.id) for x in get_sub_coalitions(co)]
         t["id_subs"] = [int(x) for x in CI.sub_coalitions(c, n)]
         t["supers"] = [int(x.id) for x in get_super_coalitions(co, n)]
@@ -122,6 +124,8 @@ def main():
     ap.add_argument("--all-pairs-max-n", type=int, default=4)
     ap.add_argument("--pair-samples", type=int, default=300)
     ap.add_argument("--random-preds", type=int, default=40)
+    ap.add_argument("--big-ns", default="", help="player counts beyond the model's tables: sampled coalition / pair / player items only")
+    ap.add_argument("--coal-sample-above", type=int, default=99, help="for n above this, a sample of the coalitions instead of all of them")
     a = ap.parse_args()
     rng = random.Random(a.seed * 4099 + 1)
     files = []
@@ -129,7 +133,12 @@ def main():
     for n in [int(x) for x in a.ns.split(",")]:
         NC = 2 ** n
         items = []
-        for c in range(NC):
+        if n <= a.coal_sample_above:
+            coal_ids = list(range(NC))
+        else:       # every singleton, every co-singleton, empty, grand, the coalitions of the two highest players, and a random sample
+            coal_ids = sorted({0, NC - 1, NC // 2, NC // 4, NC // 2 + NC // 4} | {1 << i for i in range(n)} | {NC - 1 - (1 << i) for i in range(n)}
+                              | {rng.randrange(NC) for _ in range(60)} | {rng.randrange(NC // 2, NC) for _ in range(30)})
+        for c in coal_ids:
             tid += 1
             items.append(coal_item(tid, n, c))
         for c in (range(NC) if n <= 5 else [rng.randrange(NC) for _ in range(16)]):
@@ -177,8 +186,33 @@ def main():
         kinds = {}
         for it in items:
             kinds[it["kind"]] = kinds.get(it["kind"], 0) + 1
-        files.append({"n": n, "path": path, "traces": len(items), "events": len(items), "kinds": kinds, "sample": items[min(len(items) - 1, NC + 5)]})
-    D.finish({"files": files, "events": sum(f["events"] for f in files)})
+        files.append({"n": n, "path": path, "traces": len(items), "events": len(items), "kinds": kinds, "sample": items[min(len(items) - 1, len(coal_ids) + 5)]})
+    big_files = []
+    for n in [int(x) for x in a.big_ns.split(",") if x]:
+        NC = 2 ** n
+        coal_ids = sorted({0, NC - 1, NC // 2, NC // 4, NC // 2 + NC // 4} | {1 << i for i in range(n)} | {NC - 1 - (1 << i) for i in range(n)}
+                          | {rng.randrange(NC) for _ in range(60)} | {rng.randrange(NC // 2, NC) for _ in range(30)})
+        items = []
+        for c in coal_ids:
+            tid += 1
+            items.append(coal_item(tid, n, c, light=True))
+        for _ in range(a.pair_samples):
+            tid += 1
+            x, y = rng.randrange(NC), rng.randrange(NC)
+            if rng.random() < 0.3:
+                y = x & rng.randrange(NC)          # sub-coalitions are rare among random pairs of large games
+            items.append(pair_item(tid, x, y))
+        for c in [rng.randrange(NC) for _ in range(48)] + [NC - 1, NC // 2]:
+            for i in range(n):
+                tid += 1
+                items.append(player_item(tid, c, i))
+        path = f"{a.out}_coalbig_n{n}.json"
+        D.dump(path, {"traces": items})
+        kinds = {}
+        for it in items:
+            kinds[it["kind"]] = kinds.get(it["kind"], 0) + 1
+        big_files.append({"n": n, "path": path, "traces": len(items), "events": len(items), "kinds": kinds, "sample": items[len(coal_ids) // 2]})
+    D.finish({"files": files, "big_files": big_files, "events": sum(f["events"] for f in files + big_files)})
 
 
 if __name__ == "__main__":
